@@ -15,15 +15,15 @@ var c12ScannerNames = []string{"detectTrzsz", "detectZmodem", "detectOSC52", "de
 
 // token alphabets: fragments that steer each scanner into its branches
 var c12Tokens = map[string][]string{
-	"detectTrzsz": {"::TRZSZ:TRANSFER:", "S:", "R:", "D:", "1.1.8", "999.999.999", "4294967296.0.0", ":1234567890100", ":1", ":123456", ":0", ":65535", "\r\n", "%output %1 ", "%extended-output %1 0 : ", "#CFG:", "Saved", strings.Repeat("x", 41), ":", ".", "\x1b7\x07"},
-	"detectZmodem": {"**\x18B0", "0", "1", "8", "0123456789ab", "0123456789a", "\x18\x18\x18\x18\x18", "cannot open ", "x", "*"},
-	"detectOSC52": {"\x1b]52;", "c;", "p;", "x;", "c", ";", "QUJD", "\a", "\x1b", "\x1b\\", strings.Repeat("A", 100001), "!", ""},
-	"detectDragFiles": {"/", "'/", "' ", " ", "tmp", "/tmp", "/no/such", "\\ ", "\\", "'", "\x1b[200~", "\x1b[201~", "\x1b[20", "a", "\"", "/tmp "},
-	"stripTmuxStatusLine": {"\x1bP=", "\x1b\\", "\x1b", "P=", "x", "#SUCC:1", "\\", ""},
-	"readLineOnWindows": {"#", "A", "8", "!", "\n", "\r", "\x1b[", "25;119H", "H", "K", "m", "\x1b", "\x03", "[", "1", ";", " ", "="},
-	"escapeTable": {"[", "]", "\"", "\\u00ee", "\u00ee", "1", ",", "a", "null", "{", "}", ":", "\\u", "\\ud800"},
+	"detectTrzsz":          {"::TRZSZ:TRANSFER:", "S:", "R:", "D:", "1.1.8", "999.999.999", "4294967296.0.0", ":1234567890100", ":1", ":123456", ":0", ":65535", "\r\n", "%output %1 ", "%extended-output %1 0 : ", "#CFG:", "Saved", strings.Repeat("x", 41), ":", ".", "\x1b7\x07"},
+	"detectZmodem":         {"**\x18B0", "0", "1", "8", "0123456789ab", "0123456789a", "\x18\x18\x18\x18\x18", "cannot open ", "x", "*"},
+	"detectOSC52":          {"\x1b]52;", "c;", "p;", "x;", "c", ";", "QUJD", "\a", "\x1b", "\x1b\\", strings.Repeat("A", 100001), "!", ""},
+	"detectDragFiles":      {"/", "'/", "' ", " ", "tmp", "/tmp", "/no/such", "\\ ", "\\", "'", "\x1b[200~", "\x1b[201~", "\x1b[20", "a", "\"", "/tmp "},
+	"stripTmuxStatusLine":  {"\x1bP=", "\x1b\\", "\x1b", "P=", "x", "#SUCC:1", "\\", ""},
+	"readLineOnWindows":    {"#", "A", "8", "!", "\n", "\r", "\x1b[", "25;119H", "H", "K", "m", "\x1b", "\x03", "[", "1", ";", " ", "="},
+	"escapeTable":          {"[", "]", "\"", "\\u00ee", "\u00ee", "1", ",", "a", "null", "{", "}", ":", "\\u", "\\ud800"},
 	"transformPromptInput": {"send -t %1 ", "send -lt %1 ", "0x3", "0xd", "0x", "0xzz", "0x7fffffff", ";", "\r", "\x1b[", "A", "B", "Z", "q", "\x03", "j", "\t", " "},
-	"drag-mac-win": {"/", "/Users", "\\ ", " ", "C:\\", "C:\\Windows", "\"", "/c/", "/cygdrive/c/", "x", "\\", "'", ":", "\x1b[200~"},
+	"drag-mac-win":         {"/", "/Users", "\\ ", " ", "C:\\", "C:\\Windows", "\"", "/c/", "/cygdrive/c/", "x", "\\", "'", ":", "\x1b[200~"},
 }
 
 func c12Scan(name string, in []byte) {
